@@ -11,6 +11,7 @@ import (
 	"fmt"
 	"os"
 	"os/exec"
+	"os/signal"
 	"path/filepath"
 	"runtime"
 	"runtime/debug"
@@ -630,6 +631,8 @@ func spawnChild(p *Prop, env *Env, lo, hi int, out, logf string) (state string) 
 	if err := cmd.Start(); err != nil {
 		return "cannot start child: " + err.Error()
 	}
+	trackChild(cmd.Process.Pid, true)
+	defer trackChild(cmd.Process.Pid, false)
 	doneCh := make(chan error, 1)
 	go func() { doneCh <- cmd.Wait() }()
 	select {
@@ -648,6 +651,37 @@ func spawnChild(p *Prop, env *Env, lo, hi int, out, logf string) (state string) 
 		}
 		return "timeout after " + to.String()
 	}
+}
+
+// Children run in their own process groups (so that a watchdog can kill a whole group); when the parent itself is told
+// to stop (a caller's timeout), it takes its children with it instead of leaving them parked on whatever they hang on.
+var (
+	childMu    sync.Mutex
+	childPids  = map[int]bool{}
+	childsOnce sync.Once
+)
+
+func trackChild(pid int, running bool) {
+	childsOnce.Do(func() {
+		ch := make(chan os.Signal, 1)
+		signal.Notify(ch, syscall.SIGTERM, syscall.SIGINT, syscall.SIGHUP)
+		go func() {
+			<-ch
+			childMu.Lock()
+			for p := range childPids {
+				_ = syscall.Kill(-p, syscall.SIGKILL)
+			}
+			childMu.Unlock()
+			os.Exit(130)
+		}()
+	})
+	childMu.Lock()
+	if running {
+		childPids[pid] = true
+	} else {
+		delete(childPids, pid)
+	}
+	childMu.Unlock()
 }
 
 func fileExists(p string) bool { _, err := os.Stat(p); return err == nil }
